@@ -394,7 +394,31 @@ macro_rules! number_op {
 number_op!(Add, add, +, wrapping_add);
 number_op!(Sub, sub, -, wrapping_sub);
 number_op!(Mul, mul, *, wrapping_mul);
-number_op!(Rem, rem, %, wrapping_rem);
+
+impl ops::Rem for KNumber {
+    type Output = KNumber;
+
+    fn rem(self, other: KNumber) -> KNumber {
+        use KNumber::*;
+
+        match (self, other) {
+            (F64(a), F64(b)) => F64(a % b),
+            (F64(a), I64(b)) => F64(a % b as f64),
+            (I64(a), F64(b)) => F64(a as f64 % b),
+            // Integer remainder with a zero divisor would panic, return NaN instead
+            (I64(_), I64(0)) => F64(f64::NAN),
+            (I64(a), I64(b)) => I64(a.wrapping_rem(b)),
+        }
+    }
+}
+
+impl ops::Rem for &KNumber {
+    type Output = KNumber;
+
+    fn rem(self, other: &KNumber) -> KNumber {
+        *self % *other
+    }
+}
 
 impl ops::Div for KNumber {
     type Output = KNumber;
